@@ -8,6 +8,7 @@ import (
 	"log"
 	"log/slog"
 	"runtime"
+	"sort"
 	"strconv"
 	"strings"
 
@@ -56,6 +57,8 @@ type c15Op struct {
 	// Ctor "nop": the logger is zap.NewNop().WithOptions(WrapCore(→ the recording core), …) instead of zap.New(core, …), and
 	// with an empty "stack" set no AddStacktrace option is given at all: the constructor's own default must attach no stack
 	Ctor string `json:"ctor,omitempty"`
+	// Var: a call-site variant the model does not distinguish (c15_var.go): "noargs", "inl", "split"
+	Var string `json:"var,omitempty"`
 }
 
 func init() {
@@ -71,14 +74,15 @@ type c15Frame struct {
 }
 
 type c15Ctx struct {
-	l      *zap.Logger
-	s      *zap.SugaredLogger
-	std    *log.Logger
-	sl     *slog.Logger
-	lvl    zapcore.Level
-	slvl   slog.Level
-	args   []any
-	frames []c15Frame // the goroutine's frames at the mark, innermost (the closure) first
+	l       *zap.Logger
+	s       *zap.SugaredLogger
+	std     *log.Logger
+	sl      *slog.Logger
+	lvl     zapcore.Level
+	slvl    slog.Level
+	args    []any
+	frames  []c15Frame // the goroutine's frames at the mark, innermost (the closure) first
+	inlined bool       // "inl" variants: the call-site frame really is an inlined one
 }
 
 // mark records the stack of its caller; the front-end call is on the NEXT line of that caller.
@@ -527,6 +531,7 @@ type c15Obs struct {
 	entries  []c15Entry
 	frames   []c15Frame
 	setupErr string
+	inlined  bool
 }
 
 func c15InSet(xs []int, l int) bool {
@@ -545,8 +550,17 @@ func c15Observe(op c15Op) (o c15Obs) {
 	feName := op.FE
 	var cleanup func()
 	if op.K == "slog" {
-		h := zapslog.NewHandler(core, zapslog.WithCaller(!op.NoCaller), zapslog.AddStacktraceAt(slog.Level(op.STh)),
-			zapslog.WithCallerSkip(op.Skip))
+		hopts := []zapslog.HandlerOption{zapslog.WithCaller(!op.NoCaller), zapslog.AddStacktraceAt(slog.Level(op.STh))}
+		if op.Var == "split" {
+			// the same total skip given in pieces (wrapper layers each adding their own): +1 per frame, then +2 −2
+			for i := 0; i < op.Skip; i++ {
+				hopts = append(hopts, zapslog.WithCallerSkip(1))
+			}
+			hopts = append(hopts, zapslog.WithCallerSkip(2), zapslog.WithCallerSkip(-2))
+		} else {
+			hopts = append(hopts, zapslog.WithCallerSkip(op.Skip))
+		}
+		h := zapslog.NewHandler(core, hopts...)
 		c.sl = slog.New(h)
 		switch op.Derive {
 		case "with":
@@ -654,6 +668,9 @@ func c15Observe(op c15Op) (o c15Obs) {
 		c.args, _ = c15BadArgs(op.Bad)
 	}
 	fe, okfe := c15FrontEnds[feName]
+	if vs, isVar := c15Variants[op.Var]; isVar {
+		fe, okfe = vs[feName]
+	}
 	if !okfe {
 		o.setupErr = "unknown front end " + feName
 		return
@@ -678,6 +695,7 @@ func c15Observe(op c15Op) (o c15Obs) {
 		c15Start(op.Depth, fe, c)
 	}()
 	o.frames = c.frames
+	o.inlined = c.inlined
 	for _, e := range logs.All() {
 		o.entries = append(o.entries, c15Entry{int(e.Level), e.Caller, e.Stack})
 	}
@@ -961,8 +979,15 @@ func c15Exec(raw json.RawMessage) Result {
 		if len(o.frames) > 55 {
 			deep = "deep"
 		}
-		return Result{Impl: impl, Oracle: v, Nontrivial: len(o.entries) > 0 && (op.Depth > 0 || len(op.Chain) > 0),
-			Shape: fmt.Sprintf("%s/%s/chain%d/%s/stack=%v", op.K, fam, minInt(len(op.Chain), 4), deep, len(o.entries) > 0 && o.entries[len(o.entries)-1].stack != "")}
+		variant := ""
+		if op.Var != "" {
+			variant = "/" + op.Var
+			if op.Var == "inl" {
+				variant += fmt.Sprintf("(inlined=%v)", o.inlined)
+			}
+		}
+		return Result{Impl: impl, Oracle: v, Nontrivial: len(o.entries) > 0 && (op.Depth > 0 || len(op.Chain) > 0 || op.Var != ""),
+			Shape: fmt.Sprintf("%s/%s/chain%d/%s/stack=%v%s", op.K, fam, minInt(len(op.Chain), 4), deep, len(o.entries) > 0 && o.entries[len(o.entries)-1].stack != "", variant)}
 	}
 	panic("unknown op kind " + op.K)
 }
@@ -1207,6 +1232,35 @@ func c15Gen(r *Rand, tier string, emit func(op any)) {
 		}
 		emit(op)
 	}
+	// 3b. call-site variants (c15_var.go): no arguments; an inlined helper as the call site
+	for _, vn := range []string{"noargs", "inl"} {
+		var fes []string
+		for fe := range c15Variants[vn] {
+			fes = append(fes, fe)
+		}
+		sort.Strings(fes)
+		for _, fe := range fes {
+			for d := 0; d <= 2; d++ {
+				skips := []int{d}
+				if vn == "inl" {
+					skips = []int{0, 1, d + 1}
+				}
+				for _, skip := range skips {
+					sug := strings.HasPrefix(fe, "S.")
+					op := mk("site", fe, c15Chain(r, r.Intn(3), sug, skip), skip, d)
+					op.Var, op.Ctor = vn, ""
+					op.NoCaller, op.Min = false, -1
+					if op.Lvl == 6 || op.Lvl == -2 {
+						op.Lvl = 1
+					}
+					if skip%2 == 0 {
+						op.Stack = []int{-1, 0, 1, 2, 3, 4, 5}
+					}
+					emit(op)
+				}
+			}
+		}
+	}
 	// beyond the stack
 	for i := 0; i < 6; i++ {
 		op := mk("site", Pick(r, []string{"L.Info", "S.Infow", "std.Print"}), nil, 1000000, i)
@@ -1254,8 +1308,12 @@ func c15Gen(r *Rand, tier string, emit func(op any)) {
 		case sl >= 0:
 			zl = 0
 		}
-		emit(c15Op{K: "slog", FE: fe, Derive: Pick(r, []string{"", "", "with", "group", "both"}), Skip: skip, Depth: depth,
-			SLvl: sl, Lvl: zl, STh: Pick(r, slvls), Min: Pick(r, []int{-1, -1, 0, 1, 2}), NoCaller: r.Chance(1, 8), Chain: []c15D{}, Stack: []int{}})
+		sop := c15Op{K: "slog", FE: fe, Derive: Pick(r, []string{"", "", "with", "group", "both"}), Skip: skip, Depth: depth,
+			SLvl: sl, Lvl: zl, STh: Pick(r, slvls), Min: Pick(r, []int{-1, -1, 0, 1, 2}), NoCaller: r.Chance(1, 8), Chain: []c15D{}, Stack: []int{}}
+		if i%3 == 2 && skip <= 8 {
+			sop.Var = "split"
+		}
+		emit(sop)
 	}
 	// 6. path trimming
 	files := []string{"", "f.go", "d/f.go", "a/d/f.go", "/a/b/c/d/f.go", "/f.go", "//f.go", "a//f.go", "/a/b/", "C:/x/y/z.go", "a/b/c/", "/", "//", "\xff/\xfe/x.go"}
